@@ -132,6 +132,12 @@ def handle : List String → String
       | .err => "err"
       | .panic => "panic"
     | none => "bad-op"
+  | ["v1row", h] => match hexToList? h with
+    | some b => match readV1BlockRow b with
+      | .ok (hb, prev) => s!"ok {listToHex (BV.Sha256.hash2List hb)} {listToHex prev}"
+      | .err => "err"
+      | .panic => "panic"
+    | none => "bad-op"
   | ["opkey", hash, idx] => match hexToList? hash, idx.toNat? with
     | some hash, some idx => if hash.length ≠ 32 then "bad-op" else listToHex (outpointKey hash idx)
     | _, _ => "bad-op"
